@@ -2,6 +2,7 @@ CONSTANT N = 3
 CONSTANT M = 4
 CONSTANT M2 = 4
 CONSTANT M3 = 4
+CONSTANT M4 = 4
 INIT MCInit
 NEXT Step
 INVARIANT Fidelity
